@@ -5,6 +5,7 @@ CONSTANTS
     MaxAlter = 2
     TamperFields = {"resign", "prev", "epoch", "avk", "params", "msgEpoch", "nextAvk", "nextParams", "sig", "kind"}
     MsgModes = {"k", "r"}
+    Twins = TRUE
     ForgeEpochs = {1, 2, 3, 4}
     Forge2Pars = {"p"}
     ForgeKeys = {"H3", "H4", "A"}
